@@ -18,7 +18,7 @@ let tok_s = function
   | TP (i, a) -> Printf.sprintf "P%s=%s" (si i) (si a)
   | TR (i, c) -> Printf.sprintf "R%s:%s" (si i) (if int_of_n c = 0 then "osvbngd_restart" else "vpp_recovery")
   | TL i -> "L" ^ si i ^ ":released" | TDEL i -> "DEL" ^ si i | TSP i -> "sp" ^ si i | TSD i -> "sd" ^ si i
-  | TSPF i -> "spF" ^ si i | TCKSERR -> "CKSERR"
+  | TSPF i -> "spF" ^ si i | TCKSERR -> "CKSERR" | TSDF i -> "sdF" ^ si i
 let log_s l = join_or_dash (List.map tok_s l)
 let by_key l = List.sort (fun (a, _) (b, _) -> compare (int_of_n a) (int_of_n b)) l
 let rec dedup_keys seen = function
@@ -45,8 +45,9 @@ let () =
   let cases = read_lines Sys.argv.(1) in
   let impl = if Array.length Sys.argv > 2 && Sys.argv.(2) <> "-" then read_lines Sys.argv.(2) else [] in
   let variant = if Array.length Sys.argv > 3 then Sys.argv.(3) else "repaired" in
-  let ordered = (variant = "repaired" || variant = "d_reserve") in
-  let reserve = (variant = "repaired" || variant = "d_async") in
+  let ordered = (variant = "repaired" || variant = "d_reserve" || variant = "d_delfail") in
+  let reserve = (variant = "repaired" || variant = "d_async" || variant = "d_delfail") in
+  let delretry = (variant = "repaired" || variant = "d_reserve" || variant = "d_async") in
   List.iteri (fun idx line ->
     let il = (try List.nth impl idx with _ -> "") in
     let segs = Array.of_list (split_on " | " il) in
@@ -54,7 +55,7 @@ let () =
     | p :: n4 :: n6 :: kpd :: ops when (p = "ipoe" || p = "pppoe") ->
       (try
         let proto = if p = "ipoe" then IPoE else PPPoE in
-        let c = { c_proto = proto; c_ordered = ordered; c_reserve = reserve; c_n4 = ni (int_of_string n4);
+        let c = { c_proto = proto; c_ordered = ordered; c_reserve = reserve; c_delretry = delretry; c_n4 = ni (int_of_string n4);
                   c_n6 = ni (int_of_string n6); c_npd = ni (1 lsl (int_of_string kpd)) } in
         let s = ref init in
         let outs = ref [] in
@@ -80,6 +81,7 @@ let () =
               Some (Done (ni (int_of_string a.(1)), retried))
             | "poison" -> Some (Poison (ni (int_of_string a.(1)), Array.length a > 2 && a.(2) = "a"))
             | "cksf" -> Some (CksF (ni (int_of_string a.(1))))
+            | "relf" -> Some (RelF (ni (int_of_string a.(1))))
             | "crash" ->
               let fail = if Array.length a > 2 then Some (ni (int_of_string a.(2))) else None in
               Some (Crash (a.(1) = "p", fail, Z0))
